@@ -673,7 +673,8 @@ fn process_request_obj(request: &Request, dbs: &Arc<Databases>, client: &mut Cli
                     &PermissionKind::Read,
                 );
             } else {
-                apply_to_database(&dbs, &client, &|db| {
+                // a resolve writes the key: same access rules as any other write
+                apply_if_safe_access(&dbs, &client, &key, &|db| {
                     if dbs.is_primary() {
                         db.resolve_conflit(
                             Change {
@@ -698,7 +699,7 @@ fn process_request_obj(request: &Request, dbs: &Arc<Databases>, client: &mut Cli
                         );
                         Response::Ok {}
                     }
-                });
+                }, PermissionKind::Write);
             };
             return Response::Ok {};
         }
